@@ -198,7 +198,7 @@ def run(ctx):
 
 MANIFEST = {
     "category": "other",
-    "technique": "check-then-wait window rule on tokio Notify (guard liveness vs creation of Notified) over coroutine MIR + dominance rules",
+    "technique": "check-then-wait window rule on tokio Notify (guard liveness vs creation of Notified) over coroutine MIR + dominance rules; every path into the wait performed the state check under an awaited lock",
     "text": "Static: the lost-wakeup shape (state check under a lock, lock released, then notified() with a notify_waiters notifier) is decided on the MIR for every waiter of every such Notify field; ordering of publish/notify and track/send by dominance. All interleavings are covered because the window itself is the violation.",
     "note": "Trusted: rustc MIR, driver, rule engine; tokio documentation: a Notified future receives notify_waiters wake-ups from its creation on; notify_waiters stores no permit.",
 }
